@@ -105,6 +105,7 @@ func sameVal(a, b Val) bool {
 // ---------------------------------------------------------------- obligations
 
 type Obligation struct {
+	Retried bool // undecided in the first pass, tried again with a larger budget
 	Name    string
 	Fn      string
 	Pc      string
